@@ -80,6 +80,7 @@ def materialise(t, args, sid, rng=None):
         if n in DIRS:
             for c in t["kids"].get(n, []):
                 add([n, c])
+    links.append(dict(path="wl", target="w"))
     files.append(dict(path="ext/x.go", content=GO))
     files.append(dict(path="p.patch", content=PATCH))
     argv = ["-v", "-p", "{ROOT}/p.patch"]
@@ -95,14 +96,17 @@ def materialise(t, args, sid, rng=None):
     for a in args:
         p = "/".join(a["path"])
         if a["abs"] == "1":
-            s = "{ROOT}/w" + ("/" + p if p else "")
+            s = "{ROOT}/" + ("wl" if p and rng is not None and rng.random() < 0.15 else "w") + ("/" + p if p else "")
             # redundant spellings of an absolute path: "." and ".." elements, doubled and trailing separators
             if rng is not None and a["dots"] != "1":
                 isdir = KIND_IS_DIR(a["path"])
                 s = rng.choice([s, s, s, "{ROOT}/w/." + ("/" + p if p else ""), "{ROOT}/w/../w" + ("/" + p if p else ""),
                                 "{ROOT}//w" + ("/" + p if p else "")] + ([s + "/", s + "/."] if isdir else []))
         else:
-            s = posixpath.relpath("/r/" + p if p else "/r", "/r/" + "/".join(cwd) if cwd else "/r")
+            # "/w" stands for the tree, "/wl" for a symbolic link to it that lies next to it: some relative and
+            # absolute arguments reach their target through the link (another spelling of the same files)
+            via = "wl" if p and rng is not None and rng.random() < 0.2 else "w"      # (not the link itself: p is not empty)
+            s = posixpath.relpath("/%s/%s" % (via, p) if p else "/" + via, "/w/" + "/".join(cwd) if cwd else "/w")
             if rng is not None and KIND_IS_DIR(a["path"]) and a["dots"] != "1":
                 s = rng.choice([s, s, s, "./" + s, s + "/", s + "/."])
         if a["dots"] == "1":
@@ -132,8 +136,9 @@ def observe(rec):
     pre = rec["root"] + "/w/"
     for ln in rec["stdout"].split("\n"):
         m = re.match(r"(?:generated file )?(\S+): (patched|skipped)$", ln)
-        if m and m.group(1).startswith(pre):
-            vlines.append(m.group(1)[len(pre):].split("/"))
+        if m and (m.group(1).startswith(pre) or m.group(1).startswith(pre[:-1] + "l/")):
+            # (a file that was named through the link next to the tree may be reported under that spelling)
+            vlines.append(m.group(1)[len(pre) + (0 if m.group(1).startswith(pre) else 1):].split("/"))
         elif ln:
             other.append("stdout:" + ln[:80])
     if rec["stderr"]:
